@@ -126,6 +126,49 @@ REWRITERS = ('normalize', 'replace', 'lower', 'upper', 'translate', 'expandtabs'
              'sub', 'subn', 'encode', 'format', 'title', 'swapcase', 'join', 'splitlines')
 
 
+def _split_guards(ctx, rule, m, fn, st, text_vars):
+    """the GRID_SEP split must not depend on a weaker test of the text: `if '\\n\\n' in text:` misses the separators
+    GRID_SEP matches but the literal does not (a CRLF blank line is \\n\\r\\n)"""
+    from .. import lang as L
+    p = getattr(st, '_parent', None)
+    child = st
+    while p is not None and p is not fn:
+        if isinstance(p, ast.If) and child in p.body:
+            t = p.test
+            names = {x.id for x in ast.walk(t) if isinstance(x, ast.Name)}
+            if names & set(text_vars) and not (isinstance(t, ast.Name)):
+                lit = None
+                if isinstance(t, ast.Compare) and len(t.ops) == 1 and isinstance(t.ops[0], ast.In) \
+                        and isinstance(t.left, ast.Constant) and isinstance(t.left.value, str) \
+                        and norm(t.comparators[0]) in text_vars:
+                    lit = t.left.value
+                if lit is None:
+                    ctx.error(rule, '%s:%d the split at GRID_SEP is guarded by `%s`; cannot decide' % (FR, p.lineno, norm(t)[:60]))
+                else:
+                    try:
+                        sep = m.const('parser', 'GRID_SEP')
+                        pr = L.PyRegex(sep.pattern, sep.flags)
+                        lb = pr.lookbehind if pr.lookbehind is not None else L.rlit('')
+                        has_sep = L.rcat(L.rany_star(), lb, pr.body, L.rany_star())
+                        has_lit = L.rcat(L.rany_star(), L.rlit(lit), L.rany_star())
+                        w = L.find_not_included(has_sep, has_lit, max_witnesses=1)
+                    except Exception as e:
+                        ctx.error(rule, 'guard of the GRID_SEP split: %s' % e)
+                        w = None
+                    if w:
+                        wt = ''.join(chr(c) for c in w[0])
+                        ctx.violation(rule, '%s::parse' % FR, norm(t),
+                                      'a two-grid document with CRLF line ends: the blank line between the grids is %r, which '
+                                      'GRID_SEP matches but which does not contain %r -- the document is handed to the grammar as '
+                                      'ONE grid and rejected' % (wt, lit),
+                                      'the split at GRID_SEP only happens when %r occurs in the text; GRID_SEP matches more '
+                                      'separators than that' % lit, file=FR, line=p.lineno, engine='E3')
+                    else:
+                        ctx.ob(rule, 'the guard %r of the split is implied by every GRID_SEP match' % lit, True, '%s:%d' % (FR, p.lineno))
+        child = p
+        p = getattr(p, '_parent', None)
+
+
 def text_flow(ctx, rule, what='parse(dump(g))'):
     """Every statement of parser.parse that rebinds the document text is either the charset decode or one of the
     two framing steps on line ends (strip trailing line ends with TRAILING_NL_RE, append one newline).  Any
@@ -193,7 +236,11 @@ def text_flow(ctx, rule, what='parse(dump(g))'):
                 and isinstance(val.generators[0].iter, ast.Call) and norm(val.generators[0].iter.func) == 'GRID_SEP.split' \
                 and norm(val.elt) == norm(val.generators[0].target):
             ctx.ob(rule, 'framing: the text is split into grids at GRID_SEP (empty pieces dropped)', True, where)
+            _split_guards(ctx, rule, m, fn, st, text_vars)
             continue
+        if isinstance(val, ast.IfExp) and norm(val.test) in text_vars and norm(val.body) in ['[%s]' % v for v in text_vars] \
+                and norm(val.orelse) == '[]':
+            continue        # the whole text as one piece (reached only under a guard, judged where the split is)
         if isinstance(val, ast.BinOp) and isinstance(val.op, ast.Add) and norm(val.left) in text_vars \
                 and m.fold('parser', val.right) in ('\n', '\r\n'):
             ctx.ob(rule, 'framing: one line end is appended to the text', True, where)
